@@ -74,6 +74,7 @@ inductive Cont where
   | sbt (d t : Nat)
   | lca
   | sql
+  | lcasql             -- LCA_SqliteDatabase: LCA_Database.save_to_sql, searched through SqliteIndex.find
 
 def cont? (spec : String) : Option Cont :=
   match spec.splitOn "-" with
@@ -82,6 +83,8 @@ def cont? (spec : String) : Option Cont :=
   | ["dir"] => some (.linear false)
   | ["plist"] => some (.linear false)
   | ["zip"] => some (.linear false)
+  | ["zipnm"] => some (.linear false)
+  | ["lcasql"] => some .lcasql
   | ["mf"] => some (.linear false)
   | ["sbt", d, t, _, _] => do
     let d ← d.toNat?
@@ -160,6 +163,19 @@ def build (c : Cont) (sks : List (MH × String)) (q : MH) : Option Built :=
     some ⟨findSBT tree first, sbtSelect first, mhs.isEmpty, names, false⟩
   | .lca =>
     (buildLca sks).map (fun db => ⟨findLCA db, db.select, mhs.isEmpty, names, false⟩)
+  | .lcasql =>
+    -- the sketches as the LCA database stored them (downsampled to its scaled), in a SqliteIndex
+    match buildLca sks with
+    | none => none
+    | some l =>
+      if l.entries.isEmpty then none       -- "cannot load an LCA_SqliteDatabase"
+      else
+        let stored := (l.entries.zip names).map (fun (e, n) => (e.2, n))
+        (buildSql stored).map (fun db =>
+          ⟨fun js q => match findSqlite db js q with
+              | .ok (js', hits) => .ok (js', hits.map (fun h => { h with idx := h.idx - 1 }))
+              | .error e => .error e,
+           fun q _ => SqlDb.select q, mhs.isEmpty, names, false⟩)
   | .sql =>
     (buildSql sks).map (fun db =>
       ⟨fun js q => match findSqlite db js q with
@@ -199,6 +215,10 @@ def step (st : St) (line : String) : St × String :=
   | "db" :: ids =>
     match nats? ids with
     | some ids => if ids.all (fun i => (getSk st i).isSome) then ({ st with db := ids }, s!"ok {ids.length}") else bad
+    | none => bad
+  | ["insert", i] =>
+    match nat? i with
+    | some i => if (getSk st i).isSome then ({ st with db := st.db ++ [i] }, s!"ok {st.db.length + 1}") else bad
     | none => bad
   | ["q", i] =>
     match nat? i with
